@@ -350,6 +350,54 @@ def r09h(ctx, rep, cr):
     rep.floor('R09h', 'record_undo functions', n, 1)
 
 
+def r09i(ctx, rep, cr):
+    rep.rule('R09i', 'every requested row gets a fresh lock: in RowLockManager::try_lock the acquisition loop (the loop around the insert into '
+                     'RowLockManager.locks) cannot go on to its next row without the insert — or a write to RowLock.acquired_at_ms, a refresh. '
+                     'Conflict checks ignore expired entries: a row that is skipped because "it is already ours" keeps an entry that may '
+                     'have expired, so the transaction goes on to change a row that another transaction can lock and change at once')
+    f = rep.require_fn('R09i', cr, TM + 'RowLockManager::try_lock')
+    if f is None:
+        return
+    acquisition_loop(rep, 'R09i', f, 'RowLockManager.locks', 'RowLock.acquired_at_ms')
+
+
+def acquisition_loop(rep, rule, f, table_suffix, refresh_suffix):
+    """shared with C12 (LockManager::try_lock*): the loop around the insert into the lock table inserts on every iteration"""
+    import lockgraph as LG
+    defs = A.Defs(f)
+    gl = {g.local for g in A.guards(f, defs) if (LG.lock_id(g) or '').endswith(table_suffix)}
+    ins = []
+    for c in A.calls_to(f, ('re', r'HashMap::<K, V, S(, A)?>::insert$')):
+        a = c.arg_local(0)
+        if a is None:
+            continue
+        _, root = A.origin_fields(f, a, defs, stop_at=gl)
+        if root in gl:
+            ins.append(c)
+    if not rep.floor(rule, 'inserts into %s in %s' % (table_suffix, lib.short(f.name)), len(ins), 1):
+        return
+    rep.analysed(f)
+    dom = A.dominators(f)
+    refresh = {w[0] for w in A.field_writes(f) if w[2].endswith(refresh_suffix)}
+    cutb = {c.bb for c in ins} | refresh
+    for k, c in enumerate(ins):
+        after = A.reachable(f, [c.target] if c.target is not None and c.target >= 0 else [])
+        heads = [x for x in A.calls(f) if (re.search(r'Iterator>?::next$', x.generic) or re.search(r'Iterator>?::next$', x.resolved)) and x.bb in dom[c.bb]
+                 and x.bb in after]
+        if not heads:
+            rep.holds(rule, f, 'insert#%d' % k, 'not in a loop')
+            continue
+        h = max(heads, key=lambda x: len(dom[x.bb]))
+        R = A.reachable(f, [h.target] if h.target is not None and h.target >= 0 else A.succs(f, h.bb), cut_blocks=cutb | {h.bb})
+        # can the loop head be re-entered from inside the body without the insert?  (the exit edge leaves the loop and never returns to h)
+        if any(h.bb in A.succs(f, b_) for b_ in R):
+            rep.violation(rule, f, 'row-skipped-in-acquisition', f.loc(c.line),
+                          'the acquisition loop can move on to the next key without inserting a lock entry for the current one: the key '
+                          'is treated as locked although its entry may have expired, and another transaction can take it')
+        else:
+            rep.holds(rule, f, 'insert#%d' % k, 'every iteration inserts (or refreshes) the entry')
+
+
 def run(ctx, rep):
     cr = ctx.crate('relational_engine')
     r09a(ctx, rep, cr)
@@ -360,3 +408,4 @@ def run(ctx, rep):
     r09f(ctx, rep, cr)
     r09g(ctx, rep, cr)
     r09h(ctx, rep, cr)
+    r09i(ctx, rep, cr)
